@@ -12,7 +12,7 @@ OPS = {'select': 'OSelect', 'load': 'OSelect', 'loadu': 'OSelect', 'forupd': 'OF
        'flush': 'OFlush', 'rawwrite': 'ORawWrite', 'rawupdate': 'ORawWrite', 'ddlwrite': 'ORawWrite', 'commit': 'OCommit', 'rollback': 'ORollback',
        'dbcommit': 'ODbCommit', 'dbrollback': 'ODbRollback', 'raise': 'ORaise', 'getconn': 'OGetConn'}
 EXC = {'none': 'Ok', 'EDb': '(Err EDb)', 'EDrv': '(Err EDrv)', 'Other:UnexpectedError': '(Err EUnexp)', 'ECommit': '(Err ECommit)', 'ERollback': '(Err ERollback)',
-       'EBody': '(Err EBody)', 'Other:AttributeError': '(Err EAttr)', 'EAssert': '(Err EAssert)', 'EConnClosed': '(Err EConnClosed)', 'ERuntime': '(Err ERuntime)'}
+       'EBody': '(Err EBody)', 'Other:AttributeError': '(Err EAttr)', 'Other:NotImplementedError': '(Err ENotImpl)', 'EAssert': '(Err EAssert)', 'EConnClosed': '(Err EConnClosed)', 'ERuntime': '(Err ERuntime)'}
 
 
 OUT = dict(EXC, ok='Ok')
@@ -59,12 +59,28 @@ def model_ops(ops, outcomes=None):
     body's own history (which objects this cache has loaded / locked so far, given how the earlier operations ended);
     link / unlink = the SELECT the collection makes, then the pending many-to-many change."""
     out, loaded, locked = [], set(), set()
+    loaded_w, locked_w = set(), set()
     for i, o in enumerate(ops):
         op, catch, arg = o[0], o[1], o[2]
         res = outcomes[i] if outcomes is not None and i < len(outcomes) else 'ok'
         if op in LOCKING:
             out.append('(OGetFU %s %s, %s)' % (cb(arg in loaded), cb(arg in locked), cb(catch)))
             if res == 'ok': loaded.add(arg); locked.add(arg)
+        elif op == 'forupd_r':
+            # W.get_for_update(t=T[k]): T[k] is loaded if needed, the reverse attribute loads W[k] if needed, then the locking lookup
+            if catch: raise Unmodelled('forupd_r with a caught exception')
+            if arg not in loaded: out.append('(OSelect, false)')
+            if arg not in loaded_w: out.append('(OSelect, false)')
+            out.append('(OGetFU true %s, false)' % cb(arg in locked_w))
+            if res == 'ok': loaded.add(arg); loaded_w.add(arg); locked_w.add(arg)
+        elif op == 'forupd_rt':
+            # T.get_for_update(w=W[k]): W[k] is loaded if needed; T is found through the reverse attribute, usable only if already locked
+            if arg not in loaded_w: out.append('(OSelect, %s)' % cb(catch))
+            out.append('(OGetFURev %s, %s)' % (cb(arg in locked), cb(catch)))
+            loaded_w.add(arg)
+        elif op == 'loadw':
+            out.append('(OSelect, %s)' % cb(catch))
+            if res == 'ok': loaded_w.add(arg)
         elif op in ('link', 'unlink'):
             if catch: raise Unmodelled('link/unlink with a caught exception')
             out.append('(OSelect, false)'); out.append('(%s, false)' % ('OLink' if op == 'link' else 'OUnlink'))
@@ -73,9 +89,9 @@ def model_ops(ops, outcomes=None):
             if op == 'load' and res == 'ok': loaded.add(arg)
             if op == 'qforupd' and res == 'ok': loaded.add(arg); locked.add(arg)
             if op in ('commit', 'dbcommit'):
-                if res == 'ok': locked.clear()
-                else: loaded.clear(); locked.clear()
-            if op in ('rollback', 'dbrollback'): loaded.clear(); locked.clear()
+                if res == 'ok': locked.clear(); locked_w.clear()
+                else: loaded.clear(); locked.clear(); loaded_w.clear(); locked_w.clear()
+            if op in ('rollback', 'dbrollback'): loaded.clear(); locked.clear(); loaded_w.clear(); locked_w.clear()
     return out
 
 
@@ -249,6 +265,8 @@ TEMPLATES = {
         ('raise', [['new', False, 5], ['flush', False, 0], ['raise', False, 0]]),
         ('m2m-only', [['load', False, 2], ['loadu', False, 2], ['link', False, [2, 2]], ['flush', False, 0], ['select', False, 0], ['raise', False, 0]]),
         ('m2m-mixed', [['load', False, 1], ['loadu', False, 1], ['unlink', False, [1, 1]], ['new', False, 4], ['loadu', False, 3], ['link', False, [1, 3]], ['commit', False, 0], ['select', False, 0]]),
+        ('lock-routes-reverse', [['load', False, 1], ['forupd_r', False, 1], ['forupd_r', False, 1], ['loadw', False, 2], ['forupd_rt', True, 2], ['forupd', False, 2], ['forupd_rt', False, 2],
+                                 ['commit', False, 0], ['forupd_rt', True, 2], ['forupd_r', False, 2]]),
         ('lock-routes', [['load', False, 2], ['forupd_u', False, 2], ['forupd_c', False, 3], ['forupd', True, 3], ['forupd_u', False, 4], ['commit', False, 0], ['forupd_c', False, 2]]),
     ],
     'imm': [
@@ -504,17 +522,18 @@ def pg_random_cases(rng, n):
         ses = []
         for _s in range(rng.randrange(1, 4)):
             shape = rng.choice(['opt', 'opt', 'imm', 'ser', 'ddl'])
-            ops = [rng.choice(['select', 'write', 'write', 'commit', 'rollback']) for _o in range(rng.randrange(0, 6))]
+            ops = [[rng.choice(['select', 'write', 'write', 'commit', 'rollback']), rng.random() < 0.4] for _o in range(rng.randrange(0, 6))]
             ses.append([shape, ops, rng.random() < 0.3])
-        cases.append({'sessions': ses})
+        faults = sorted(set(rng.randrange(0, 24) for _f in range(rng.choice([0, 0, 1, 1, 2, 3]))))
+        cases.append({'sessions': ses, 'faults': faults})
     return cases
 
 
 def coq_pg_case(case, out):
     evs = []
-    for what, ac, dtx in out['events']:
+    for what, ok, ac, dtx in out['events']:
         if what not in PG_CALLS: raise Unmodelled('postgres call %r' % what)
-        evs.append('PEv (%s) %s %s' % (PG_CALLS[what], cb(ac), cb(dtx)))
-    ses = '[' + '; '.join('(%s, [%s], %s)' % (SHAPES[sh], '; '.join(PG_OPS[o] for o in ops), cb(fail)) for sh, ops, fail in case['sessions']) + ']'
-    return ('(let s := pg_run %s (pg_init false) in list_eqb pevent_eqb (rev (g_trace s)) [%s] && eqb (g_bad s) %s && pg_writes_ok (g_trace s))'
-            % (ses, '; '.join(evs), cb(out['bad'])))
+        evs.append('PEv (%s) %s %s %s' % (PG_CALLS[what], cb(ok), cb(ac), cb(dtx)))
+    ses = '[' + '; '.join('(%s, [%s], %s)' % (SHAPES[sh], '; '.join('(%s, %s)' % (PG_OPS[o], cb(c)) for o, c in ops), cb(fail)) for sh, ops, fail in case['sessions']) + ']'
+    return ('(let s := pg_run (faults_oracle %s) %s (pg_init false) in list_eqb pevent_eqb (rev (g_trace s)) [%s] && eqb (g_bad s) %s && eqb (g_reg s) %s && pg_writes_ok (g_trace s))'
+            % (coq_faults(case.get('faults', [])), ses, '; '.join(evs), cb(out['bad']), cb(not out.get('db2cache_empty', True))))
